@@ -73,6 +73,7 @@ type LoopInfo struct {
 	modGhost  map[string]*Sort
 	head      *State // state right after the havoc at the loop head
 	heldEntry *Term  // lockOnly: $held when the loop is entered
+	wholeHavoc bool  // the loop head havocs the whole heap (lock-only functions; abstracted loops with unknown writes)
 	// range-over-func loops synthesised at the iterator call
 	RangeFunc *ssa.Function
 	rfKeys    *Term
@@ -830,12 +831,18 @@ func (ft *FuncTr) run() error {
 	}
 	// loop mods
 	for _, l := range ft.loops {
-		if ft.abstract {
+		if ft.lockOnly {
 			ft.computeLoopModsLockOnly(l)
+			l.wholeHavoc = true
 			continue
 		}
 		if err := ft.computeLoopMods(l); err != nil {
-			return err
+			if !ft.abstract {
+				return err
+			}
+			// abstracted function: a loop whose writes cannot be determined (callee without contract) havocs the heap
+			ft.computeLoopModsLockOnly(l)
+			l.wholeHavoc = true
 		}
 	}
 	// own modifies (declared) for frame checking
@@ -1109,7 +1116,7 @@ func (ft *FuncTr) block(b *ssa.BasicBlock) error {
 	}
 	var st *State
 	var at *Term
-	if l := ft.loops[b]; l != nil && ft.abstract {
+	if l := ft.loops[b]; l != nil && l.wholeHavoc {
 		pre, preAt := ft.merge(b, es)
 		l.pre, l.preAt = pre, preAt
 		l.heldEntry = ft.h.ghostVar(pre, "$held", SArray(SPtr, SInt))
@@ -1305,7 +1312,7 @@ func (ft *FuncTr) goEdge(b, succ *ssa.BasicBlock, cond *Term, st *State) error {
 		if l == nil {
 			return unsupported("back edge to non-loop header")
 		}
-		if ft.abstract {
+		if l.wholeHavoc {
 			ft.assert(cond, Eq(ft.h.ghostVar(st, "$held", SArray(SPtr, SInt)), l.heldEntry), fmt.Sprintf("guard.loop%d", l.Ordinal), "", "every iteration ends holding the same locks the loop was entered with", token.NoPos)
 			return nil
 		}
